@@ -316,3 +316,8 @@ def run(ctx):
     ctx.alias = {"C01.c": "C03.h"}
     ctx.run_clause("C03.h", C01.c01c_roles)
     ctx.alias = {}
+    # a recompute decision taken on the callee's value BEFORE the callee is repaired re-executes callers whose inputs did
+    # not change (value moved away and back): C01.f's rules, evaluated here as C03.i
+    ctx.alias = {"C01.f": "C03.i"}
+    ctx.run_clause("C03.i", C01.c01f)
+    ctx.alias = {}
